@@ -55,7 +55,8 @@ LDLIBS_STUB := -lssl -lcrypto -lpthread -lm
 # symbols of libc intercepted at link time in library + harness objects
 WRAP_SYMS := send recv connect accept4 socket close bind listen epoll_create1 \
              epoll_ctl eventfd timerfd_create poll fopen open unlink \
-             setsockopt getsockopt epoll_wait ppoll select nanosleep usleep sleep
+             setsockopt getsockopt epoll_wait ppoll select nanosleep usleep sleep \
+             read write readv writev recvmsg sendmsg recvfrom sendto epoll_pwait pselect clock_nanosleep getaddrinfo
 # internal seams: calls across translation units inside libxcm
 WRAP_TP := xcm_tp_socket_send xcm_tp_socket_receive xcm_tp_socket_finish
 WRAP := $(foreach s,$(WRAP_SYMS) $(WRAP_TP),-Wl,--wrap=$(s))
